@@ -197,6 +197,10 @@ type GroupScan struct {
 	Pods     []*v1.Pod
 	Nodes    []*v1.Node
 	KnownAmbiguous bool // see KnownASG.Ambiguous: true if it held at any point of this group's turn
+	StaleNodes map[string]bool // nodes of the view whose cached copy is older than what the API server holds at list time
+	PodsListed bool
+	Reqs       []*ProvReq // calls on the group's cloudprovider.NodeGroup, in order
+	ViewMoved  bool // a later listing in the same turn returned something else than the first
 	TLeave time.Time // the group's turn ended (another group's began, or the scan returned)
 	TEnter time.Time // the group's turn began (first call of one of its listers)
 	TList    time.Time
@@ -268,4 +272,27 @@ func ifs(c bool, a, b string) string {
 		return a
 	}
 	return b
+}
+
+
+// ProvReq is one call of the code under test on its cloudprovider.NodeGroup (the interface C17-C19 speak
+// about): where a removal or scale-up request begins and ends, what it was given and how it ended.
+type ProvReq struct {
+	Kind       string // "delete" | "increase"
+	Nodes      []string
+	Delta      int64
+	Seq0, Seq1 int // seam calls with Seq0 < Seq <= Seq1 belong to the request
+	Done       bool // returned (false: a crash or an exit ended it)
+	Err        string
+	NotInGroup string // node named by a not-in-group error
+	Known      *KnownASG // the known-ASG model when the request began
+}
+
+func (r *ProvReq) has(node string) bool {
+	for _, n := range r.Nodes {
+		if n == node {
+			return true
+		}
+	}
+	return false
 }
